@@ -100,6 +100,7 @@ SPEC_NAMES = {
     "h2_max_frame",
     "h2_sendable",
     "call_raised",
+    "pseudo",
 }
 
 
@@ -605,6 +606,19 @@ class SpecMixin:
             return False
         f = z3.Function("has_header", seq.e.sort(), z3.StringSort(), z3.BoolSort())
         return mk_bool(f(seq.e, str_to_z3(name)))
+
+    def sp_pseudo(self, e, fr):
+        """pseudo(headers, b':name'): value of that pseudo-header in a header list as h2 delivers it
+        (pseudo-headers first, none among the regular headers that follow); b'' when absent"""
+        v = self.ev(e.args[0], fr)
+        name = self.ev(e.args[1], fr)
+        if not isinstance(v, PList):
+            raise ContractError("pseudo(): not a header list with a known pseudo-header prefix")
+        out = b""
+        for it in v.items:
+            if isinstance(it, tuple) and it[0] == name:
+                out = it[1]
+        return out
 
     def sp_key_pos(self, e, fr):
         """key_pos(_it, k): position of key k in the key list being iterated"""
